@@ -17,6 +17,7 @@ import (
 	"strings"
 	"sync"
 	"testing"
+	"time"
 )
 
 // Failure is a property violation found by running one case.
@@ -571,4 +572,30 @@ func Shard() (int, int) {
 		return i, n
 	}
 	return 0, 1
+}
+
+// Guard runs fn (one case) under a watchdog: if it has not returned after limit, the case is saved as a
+// replay file with key "hang:<label>", a "hang" result is emitted and the process exits with code 3.
+// The driver re-runs that replay file alone and reports a violation only if it hangs again (DESIGN.md §2.5).
+func (s *Session) Guard(test, label string, c any, limit time.Duration, fn func()) {
+	done := make(chan struct{})
+	go func() {
+		t := time.NewTimer(limit)
+		defer t.Stop()
+		select {
+		case <-done:
+		case <-t.C:
+			f := &Failure{Key: "hang:" + label, Msg: fmt.Sprintf("case did not finish within %v", limit)}
+			if s.IsKnown(f.Key) {
+				s.emit(resultLine{Type: "info", Msg: "known hang " + f.Key})
+			} else {
+				p := s.writeReplay(test, c, f)
+				s.emit(resultLine{Type: "hang", Key: f.Key, Replay: p, Msg: f.Msg})
+			}
+			s.Finish()
+			os.Exit(3)
+		}
+	}()
+	fn()
+	close(done)
 }
